@@ -48,6 +48,9 @@ pub struct WriterOpts {
     /// keeps pointing at the old container, at a container that does not hold the object, or at a
     /// container that does not exist. `expect` is then meaningless for those objects.
     pub misdesignate: bool,
+    /// object streams and cross-reference streams are always compressed with real zlib (used for
+    /// the "inflates to hundreds of times the file size" workload class)
+    pub force_structural_zlib: bool,
 }
 
 #[derive(Clone, Copy, Debug, PartialEq, Eq)]
@@ -127,15 +130,19 @@ struct Em<'a> {
     /// start of the first token written since this was last set to `None`
     first_tok: Option<usize>,
     fields: Vec<(usize, usize, FieldKind)>,
+    /// structural streams always compressed with real zlib (see `WriterOpts::force_structural_zlib`)
+    force_zlib: bool,
 }
 
 impl<'a> Em<'a> {
     fn new(ctx: &'a Ctx, f: usize, raw_cr: bool) -> Em<'a> {
-        Em { ctx, f, raw_cr, out: Vec::new(), open: false, cm: true, first_tok: None, fields: Vec::new() }
+        Em { ctx, f, raw_cr, out: Vec::new(), open: false, cm: true, first_tok: None, fields: Vec::new(), force_zlib: false }
     }
     /// emitter for a separate buffer (object-stream member) with the same choices
     fn sub(&self) -> Em<'a> {
-        Em::new(self.ctx, self.f, self.raw_cr)
+        let mut e = Em::new(self.ctx, self.f, self.raw_cr);
+        e.force_zlib = self.force_zlib;
+        e
     }
     /// true with per-mille probability `pm[freedom]`; never draws when that is 0
     fn p(&self, pm: [u64; 3], label: &'static str) -> bool {
@@ -348,7 +355,9 @@ impl<'a> Em<'a> {
 
     fn lit_tok(&self, s: &[u8]) -> Vec<u8> {
         let n = s.len();
-        let fancy = self.p([0, 250, 700], "str-fancy");
+        // very long strings are written plainly (one draw per byte would dominate the run, and the
+        // "highly compressible" workload class needs them to stay compressible)
+        let fancy = n < 10_000 && self.p([0, 250, 700], "str-fancy");
         // Which parentheses are properly matched, and how deep is each pair.
         let mut raw_pair = vec![false; n];
         if fancy {
@@ -662,7 +671,7 @@ impl<'a> Em<'a> {
 
     /// zlib stream: flate2 at a drawn level, or our own stored-block encoder
     fn flate(&self, data: &[u8]) -> Vec<u8> {
-        if self.d(2, "flate-own") == 1 {
+        if !self.force_zlib && self.d(2, "flate-own") == 1 {
             self.ctx.count("flate-own-stored");
             let mut out = vec![0x78, 0x01];
             let mut rest = data;
@@ -704,7 +713,7 @@ impl<'a> Em<'a> {
     /// optional `Filter`/`DecodeParms` for a structural stream; `cols` = row width for a predictor
     /// (the data length must be a multiple of it). Returns the encoded body.
     fn encode_structural(&self, d: &mut MDict, data: Vec<u8>, cols: usize, what: [&'static str; 2]) -> Vec<u8> {
-        if !self.p([0, 500, 800], "struct-flate") {
+        if !self.force_zlib && !self.p([0, 500, 800], "struct-flate") {
             return data;
         }
         self.ctx.count(what[0]);
@@ -799,6 +808,7 @@ pub fn write_history(ctx: &Ctx, revisions: &[Revision], opts: &WriterOpts) -> Wr
     use FieldKind::*;
     let avoid = AVOID.load(Ordering::Relaxed);
     let mut e = Em::new(ctx, opts.freedom.min(2) as usize, opts.raw_cr_eol);
+    e.force_zlib = opts.force_structural_zlib;
     let mut layout = Layout::default();
 
     // ---- junk, header, binary comment, further comment lines
@@ -1197,5 +1207,6 @@ pub fn draw_opts(ctx: &Ctx, n_revisions: usize, version: &str, binary_mark: &[u8
         leading_junk: ctx.chance(SW, 1, 8, "opt-leading-junk"),
         raw_cr_eol: ctx.chance(SW, 1, 2, "opt-raw-cr-eol"),
         misdesignate: false,
+        force_structural_zlib: false,
     }
 }
